@@ -3,9 +3,9 @@
 cd "$(dirname "$0")/.." || exit 2
 for s in "$@"; do
   for p in C01 C02 C03 C04 C05 C06 C07 C08 C09 C10 C11 C12 C13 C14 C15 C16 C17 C18 C19 C20; do
-    VERIF_SEED=$s timeout 1200 ./check $p --tier quick > .work/sweep_$p_$s.log 2>&1
+    VERIF_SEED=$s timeout 1200 ./check $p --tier quick > .work/sweep_${p}_$s.log 2>&1
     rc=$?
-    if [ $rc -ne 0 ]; then echo "seed=$s $p rc=$rc"; grep -E "VIOLATION|MACHINERY|clause" .work/sweep_$p_$s.log | head -4 | cut -c1-400; fi
+    if [ $rc -ne 0 ]; then echo "seed=$s $p rc=$rc"; grep -E "VIOLATION|MACHINERY|clause" .work/sweep_${p}_$s.log | head -4 | cut -c1-400; fi
   done
   echo "seed $s done"
 done
